@@ -124,3 +124,93 @@ pub fn verif_terminate(cell: &ActorCell) {
 pub fn verif_force_status(cell: &ActorCell, s: u8) {
     cell.inner.status.store(s, std::sync::atomic::Ordering::SeqCst);
 }
+
+fn poll_once<F: std::future::Future>(f: F) -> Option<F::Output> {
+    let waker = futures::task::noop_waker();
+    let mut cx = std::task::Context::from_waker(&waker);
+    let mut f = Box::pin(f);
+    match f.as_mut().poll(&mut cx) {
+        std::task::Poll::Ready(v) => Some(v),
+        std::task::Poll::Pending => None,
+    }
+}
+
+/// one poll of the real `listen_in_priority` from the given port contents; returns the kind of result
+#[allow(clippy::too_many_arguments)]
+pub fn verif_poll_listen(sig_full: bool, sig_drop: bool, stop_full: bool, stop_drop: bool, sup_has: bool, msg_has: bool, chans_closed: bool) -> String {
+    let (cell, mut ports) = ActorCell::new::<Dummy>(None).expect("cell");
+    if sig_full {
+        let _ = cell.inner.send_signal(Signal::Kill);
+    } else if sig_drop {
+        drop(cell.inner.signal.lock().unwrap().take());
+    }
+    if stop_full {
+        let _ = cell.inner.send_stop(None);
+    } else if stop_drop {
+        drop(cell.inner.stop.lock().unwrap().take());
+    }
+    if sup_has {
+        let _ = cell.inner.send_supervisor_evt(SupervisionEvent::ProcessGroupChanged(crate::pg::GroupChangeMessage::Leave("s".into(), "g".into(), vec![])));
+    }
+    if msg_has {
+        let _ = cell.inner.send_message_unchecked::<u64>(7);
+    }
+    if chans_closed {
+        crate::registry::pid_registry::unregister_pid(cell.get_id());
+        drop(cell);
+    }
+    let r = poll_once(ports.listen_in_priority());
+    let kind = match r {
+        None => "pending".to_string(),
+        Some(Ok(crate::actor::actor_cell::ActorPortMessage::Signal(_))) => "ok:Signal".to_string(),
+        Some(Ok(crate::actor::actor_cell::ActorPortMessage::Stop(_))) => "ok:Stop".to_string(),
+        Some(Ok(crate::actor::actor_cell::ActorPortMessage::Supervision(_))) => "ok:Supervision".to_string(),
+        Some(Ok(crate::actor::actor_cell::ActorPortMessage::Message(_))) => "ok:Message".to_string(),
+        Some(Err(MessagingErr::ChannelClosed)) => "err:ChannelClosed".to_string(),
+        Some(Err(_)) => "err:other".to_string(),
+    };
+    // what is left in the ports afterwards
+    let left = format!(
+        "sig:{};stop:{};sup:{};msg:{}",
+        ports.signal_rx.try_recv().is_ok() as u8,
+        ports.stop_rx.try_recv().is_ok() as u8,
+        ports.supervisor_rx.try_recv().is_ok() as u8,
+        ports.message_rx.try_recv().is_ok() as u8
+    );
+    format!("{}|{}", kind, left)
+}
+
+struct CountingFuture {
+    polls: std::sync::Arc<std::sync::atomic::AtomicUsize>,
+    ready: bool,
+}
+impl std::future::Future for CountingFuture {
+    type Output = u8;
+    fn poll(self: std::pin::Pin<&mut Self>, _cx: &mut std::task::Context<'_>) -> std::task::Poll<u8> {
+        self.polls.fetch_add(1, std::sync::atomic::Ordering::SeqCst);
+        if self.ready {
+            std::task::Poll::Ready(42)
+        } else {
+            std::task::Poll::Pending
+        }
+    }
+}
+
+/// one poll of the real `run_with_signal`; returns "<kind>|polls=<n>"
+pub fn verif_poll_rws(sig_full: bool, sig_drop: bool, fut_ready: bool) -> String {
+    let (cell, mut ports) = ActorCell::new::<Dummy>(None).expect("cell");
+    if sig_full {
+        let _ = cell.inner.send_signal(Signal::Kill);
+    } else if sig_drop {
+        drop(cell.inner.signal.lock().unwrap().take());
+    }
+    let polls = std::sync::Arc::new(std::sync::atomic::AtomicUsize::new(0));
+    let fut = CountingFuture { polls: polls.clone(), ready: fut_ready };
+    let r = poll_once(ports.run_with_signal(fut));
+    let kind = match r {
+        None => "pending",
+        Some(Ok(_)) => "completed",
+        Some(Err(_)) => "signal",
+    };
+    format!("{}|polls={}", kind, polls.load(std::sync::atomic::Ordering::SeqCst))
+}
